@@ -48,17 +48,18 @@ def merged_order(cfg):
     return merge(cfg, m, outer)
 
 
-def chain_functions(cfg):
-    """All function names of the route's chain, outermost first per phase."""
-    order = merged_order(cfg)
+def chain_functions(cfg, target='x'):
+    """All function names of the route's chain, outermost first per phase.
+    target 'y' is a second route, bound after the first, WITHOUT route-level middlewares."""
+    order = merged_order(cfg if target == 'x' else dict(cfg, route=[]))
     out = {}
     for ph in PHASES:
         out[ph] = [m['name'] + '.' + ph for m in order if ph in cfg['types'][m['type']]['phases']]
     return out
 
 
-def model_run(cfg, faults):
-    trace, final = OnionModel(chain_functions(cfg), faults, cfg['ep_returns'], cfg['has_render']).run()
+def model_run(cfg, faults, target='x'):
+    trace, final = OnionModel(chain_functions(cfg, target), faults, cfg['ep_returns'], cfg['has_render']).run()
     if final[0] == 'value' and final[1][0] == 'resp':
         return trace, (200, final[1][2])
     return trace, (500, None)
@@ -78,10 +79,11 @@ def build_app(cfg):
     ep = make_function('EP', False, default_value=cfg['ep_returns'], bound=False)
     rn = make_function('RN', False, params_req=('context',), default_value='resp', bound=False) if cfg['has_render'] else None
     rt = Route('/x', ep, rn, middlewares=objs(route))
+    rt2 = Route('/y', ep, rn)        # bound after /x, no middlewares of its own
     if sub is not None:
-        inner = Application([rt], middlewares=objs(sub))
-        return Application([('/sub', inner)], middlewares=objs(outer)), '/sub/x'
-    return Application([rt], middlewares=objs(outer)), '/x'
+        inner = Application([rt, rt2], middlewares=objs(sub))
+        return Application([('/sub', inner)], middlewares=objs(outer)), '/sub/'
+    return Application([rt, rt2], middlewares=objs(outer)), '/'
 
 
 class C03(Check):
@@ -106,7 +108,7 @@ class C03(Check):
     level_text = ('For each generated stack the single-fault space (<= 17 layers x 4 behaviours) is enumerated '
                   'completely and compared, event by event, with a reference interpreter; stacks are sampled by seed.')
     level_note = 'Trusted: the reference onion interpreter (written from the property text, ~90 lines).'
-    required_probes = ('render-skipped-for-response', 'no-render-layers-ran', 'unique-deduped', 'three-levels',
+    required_probes = ('second-route-without-own-middlewares', 'render-skipped-for-response', 'no-render-layers-ran', 'unique-deduped', 'three-levels',
                        'swallow-fired', 'double-fault')
 
     def gen_config(self, rng):
@@ -156,6 +158,12 @@ class C03(Check):
                 a, b = frng.sample(allf, 2)
                 ops.append({'faults': {a: {'beh': frng.choice(LAYER_BEHS) if a in layers else 'raise', 'exc': frng.choice(excs)},
                                        b: {'beh': frng.choice(LAYER_BEHS) if b in layers else 'raise', 'exc': frng.choice(excs)}}})
+        # the sibling route that has no middlewares of its own must not inherit the first route's
+        fy = chain_functions(cfg, 'y')
+        ylayers = fy['request'] + fy['endpoint'] + fy['render']
+        ops.append({'faults': {}, 'target': 'y'})
+        for name in ylayers[:6]:
+            ops.append({'faults': {name: {'beh': frng.choice(LAYER_BEHS), 'exc': frng.choice(excs)}}, 'target': 'y'})
         return {'world': 'chain', 'seed': seed, 'config': cfg, 'ops': ops}
 
     def execute(self, plan):
@@ -180,10 +188,13 @@ class C03(Check):
                                     len(cfg['route']), cfg['ep_returns'], cfg['has_render'])
         for step, op in enumerate(plan['ops']):
             faults = op['faults']
-            exp_trace, exp_out = model_run(cfg, faults)
+            target = op.get('target', 'x')
+            exp_trace, exp_out = model_run(cfg, faults, target)
             RT.reset(faults)
             RT.set_seq(step)
-            ex = call_app(app, make_environ('GET', path))
+            ex = call_app(app, make_environ('GET', path + target))
+            if target == 'y':
+                res.probe('second-route-without-own-middlewares')
             got_trace = RT.trace.get(step, [])
             got_out = (ex.code, ex.header('X-Sim-From') if ex.code == 200 else None)
             fired = [f for f in faults if any(t.startswith(('!' + f + ' ', '<' + f + ' ')) for t in got_trace)
